@@ -5,6 +5,7 @@ go 1.21
 require go.brendoncarroll.net/p2p v0.0.0
 
 require (
+	github.com/anishathalye/porcupine v1.3.0
 	github.com/pkg/errors v0.9.1 // indirect
 	go.brendoncarroll.net/stdctx v0.0.0-20241118190518-40d09f4d11e7 // indirect
 	go.brendoncarroll.net/tai64 v0.0.0-20241118171318-6e12d283d5e4 // indirect
